@@ -65,6 +65,33 @@ def run(ctx: Ctx):
               and u(n.value) == "log_probs_t.shape" and len(n.targets[0].elts) == 3]
     vname = u(vshape[0].targets[0].elts[2]) if vshape else None
     okv = len(mods) == 1 and len(divs) == 1 and u(mods[0].right) == u(divs[0].args[1]) == vname
+    if not okv and len(divs) == 1 and u(divs[0].args[1]) == vname:
+        # the token written another way (`index - source * V`): some expression over the top-k index evaluates to index % V at every
+        # point of a grid, with trunc_divide by its meaning for non-negative operands
+        from sa.inline import Inliner as _InlTok
+        from sa.inteval import NotEvaluable as _NEt, int_eval as _iet
+        inl_t = _InlTok(adv.node, rda, keep={ind_name, vname})
+        for n in own_nodes(adv.node):
+            if not (isinstance(n, ast.BinOp) and isinstance(n.op, (ast.Mod, ast.Sub)) and ind_name in {x.id for x in ast.walk(inl_t.expand(n)) if isinstance(x, ast.Name)}):
+                continue
+            ex_ = inl_t.expand(n)
+            try:
+                def leaf_(x, env_={}):
+                    return None
+                good = True
+                for i_ in range(0, 23):
+                    for v_ in (1, 4, 7):
+                        def leaf(x, i_=i_, v_=v_):
+                            if isinstance(x, ast.Call) and call_name(x) == "trunc_divide" and len(x.args) == 2:
+                                a_ = _iet(x.args[0], {ind_name: i_, vname: v_, "__leaf__": leaf})
+                                b_ = _iet(x.args[1], {ind_name: i_, vname: v_, "__leaf__": leaf})
+                                return ("__v__", a_ // b_)[1] if a_ // b_ != 0 else 0
+                            return None
+                        if _iet(ex_, {ind_name: i_, vname: v_, "__leaf__": leaf}) != i_ % v_:
+                            good = False
+                okv = okv or good
+            except _NEt:
+                continue
     col.ob("G12", "S1", f"{rel}::{ADV}::index=(src, token) over V", okv,
            "candidate index is not split as (index // V, index % V) with the vocabulary size", rel,
            topk_assign.lineno)
@@ -150,7 +177,14 @@ def run(ctx: Ctx):
     # order: -inf first, then 0.0 on the eos column (the second mask includes the one-hot of eos)
     if len(eos_fills) == 2:
         first, second = sorted(eos_fills, key=lambda c: c.lineno)
-        ok = is_neg_inf(first.args[1]) and any(call_name(x).endswith("one_hot") for x in rd.derives(second.args[0]).calls())
+        d2 = rd.derives(second.args[0])
+        column = any(call_name(x).endswith("one_hot") for x in d2.calls()) or any(
+            isinstance(x, ast.Compare) and len(x.ops) == 1 and isinstance(x.ops[0], ast.Eq)
+            and {True} == {any(isinstance(c_, ast.Call) and call_name(c_) == "torch.arange" for c_ in ast.walk(s_)) or "self.eos" in u(s_) for s_ in (x.left, x.comparators[0])}
+            and any("self.eos" in u(s_) for s_ in (x.left, x.comparators[0])) and any(
+                isinstance(c_, ast.Call) and call_name(c_) == "torch.arange" for s_ in (x.left, x.comparators[0]) for c_ in ast.walk(s_))
+            for x in list(d2.nodes()) + list(ast.walk(second.args[0])))
+        ok = is_neg_inf(first.args[1]) and column  # (the eos column: its one-hot, or `arange(V) == eos`)
         col.ob("G13", "S4", f"{where}::eos-forcing-order", ok,
                "the 0.0 fill of the eos column must come after the -inf fill and use the one-hot of eos", rel,
                second.lineno)
@@ -201,9 +235,17 @@ def run(ctx: Ctx):
     for f_, tag in ((tw, "BeamSearch._to_width"), (adv, ADV)):
         rdx = ReachingDefs(f_.node)
         n_ = 0
+        score_formals = {p_.name for p_ in f_.params if "log_probs" in p_.name}
         for n in own_nodes(f_.node):
-            if isinstance(n, ast.Assign) and isinstance(n.value, ast.Call) and call_name(n.value) == "torch.cat" \
-                    and isinstance(n.value.args[0], (ast.List, ast.Tuple)) and "log_probs" in u(n.targets[0]):
+            # every concatenation that widens a score tensor (its first block derives, by value, from a score formal) - as the
+            # right-hand side of an assignment or inside a returned tuple
+            cat_ = n if isinstance(n, ast.Call) and call_name(n) == "torch.cat" and n.args and isinstance(n.args[0], (ast.List, ast.Tuple)) \
+                and len(n.args[0].elts) == 2 else None
+            if cat_ is not None and rdx.derives(cat_.args[0].elts[0], value_flow=True).params() & score_formals \
+                    and not (rdx.derives(cat_.args[0].elts[0], value_flow=True).params() - score_formals - {"width", "self"}) \
+                    and not any(d_.slot == (1,) and isinstance(d_.value, ast.Call) and isinstance(d_.value.func, ast.Attribute)
+                                and d_.value.func.attr in ("topk", "sort", "max", "min") for d_ in rdx.derives(cat_.args[0].elts[0], value_flow=True).defs):
+                n = ast.Assign(targets=[ast.Name(id="scores", ctx=ast.Store())], value=cat_, lineno=cat_.lineno)
                 n_ += 1
                 from sa.inline import Inliner as _Inl
                 e = _Inl(f_.node, rdx).expand(n.value.args[0].elts[1])
@@ -260,20 +302,54 @@ def _all_paths_done_ignores_empty_slots(ctx: Ctx):
     for n in own_nodes(f.node):
         if isinstance(n, ast.Call) and isinstance(n.func, ast.Attribute) and n.func.attr in ("all", "any") and n.args and u(n.args[0]) == "1" \
                 and under_flag(guards_of(pm, n), "self.finish_all_paths", True):
-            par = pm.get(n)
-            negated_any_of_negation = n.func.attr == "any" and isinstance(par, ast.UnaryOp) and isinstance(par.op, ast.Invert) \
-                and isinstance(n.func.value, ast.UnaryOp) and isinstance(n.func.value.op, ast.Invert)
-            if n.func.attr == "all" or negated_any_of_negation:
-                sites.append(n)
-            else:
-                anys.append(n)
-    # 'run all paths to completion': an element is done when EVERY slot has finished (or is empty), never when some slot has
-    col.ob("G13", "S5", f"{rel}::BeamSearch.forward::all-paths-mode-waits-for-every-slot", not anys,
-           (f"under finish_all_paths `{u(anys[0])[:80]}` declares a batch element done as soon as ONE slot of its beam has finished (or is "
-            f"empty): the search freezes the element at the first eos anywhere in the beam and returns unfinished prefixes instead of the "
-            f"full set of complete sequences") if anys else "", rel, anys[0].lineno if anys else f.line)
-    if anys and not sites:
-        return
+            sites.append(n)
+    # 'run all paths to completion' by value: the statement that holds the batch-wide reduction is evaluated (sa/teval.py) on five beams
+    # of three slots - an active slot among finished / empty ones, only finished and empty ones, only empty ones, only finished
+    # ones, one active slot among finished ones: an element is done iff EVERY slot has finished or is empty (score -inf)
+    import math
+    import numpy as np
+    from sa.inline import Inliner as _InlAP
+    from sa.inteval import NotEvaluable as _NEap
+    from sa.teval import frac_array, teval as _teval
+    E = np.array([[True, False, False], [True, False, True], [False, False, False], [True, True, True], [False, True, True]])
+    L = np.empty((5, 3), dtype=object)
+    L[...] = frac_array([[0, -1, 0], [0, 0, -2], [0, 0, 0], [-1, -2, -3], [-1, -2, -3]])
+    for i_, j_ in ((0, 2), (1, 1), (2, 0), (2, 1), (2, 2)):
+        L[i_, j_] = -math.inf
+    want_done = [False, True, True, True, False]
+    verdicts = []
+    for n in sites:
+        st = n
+        while st is not None and not isinstance(st, ast.stmt):
+            st = pm.get(st)
+        if not isinstance(st, ast.Assign):
+            continue
+        # temporaries defined inside the finish_all_paths arm are looked through; what the arm receives (the eos mask, the scores) stays
+        arm_defined = {d_.name for d_ in rd.defs if d_.stmt is not None and d_.kind == "assign"
+                       and under_flag(guards_of(pm, d_.stmt), "self.finish_all_paths", True)}
+        outer = {x.id for x in ast.walk(f.node) if isinstance(x, ast.Name)} - arm_defined
+        ex = _InlAP(f.node, rd, keep=outer | {score}).expand(st.value)
+
+        def leaf(x):
+            if isinstance(x, ast.Name):
+                return L if x.id == score else E
+            return None
+        try:
+            got = _teval(ex, {}, leaf)
+            got = [bool(z) for z in np.asarray(got).reshape(-1).tolist()]
+        except _NEap as e_:
+            col.undecided(f"{rel}::BeamSearch.forward: the all-paths test `{u(st)[:60]}` is outside the evaluated fragment ({e_})")
+            continue
+        verdicts.append((st, got))
+    badv = [(st, got) for st, got in verdicts if got != want_done]
+    col.floor("all_paths_reductions", len(sites), 1)
+    col.ob("G13", "S5", f"{rel}::BeamSearch.forward::all-paths-mode-waits-for-every-slot", not badv and bool(verdicts),
+           (f"under finish_all_paths `{u(badv[0][0])[:80]}` gives done = {badv[0][1]} for five reference beams (an active slot among finished / empty "
+            f"ones; finished and empty ones; only empty ones; only finished ones; one active slot among finished ones); an element is done iff "
+            f"EVERY slot has finished or is empty: {want_done} - otherwise the search freezes an element at the first eos anywhere in its beam and "
+            f"returns unfinished prefixes, or never stops because empty slots never end in eos") if badv else "", rel,
+           badv[0][0].lineno if badv else f.line)
+    return
     if len(sites) != 1:
         raise AnalysisError(f"C04: expected one all-paths reduction under finish_all_paths, found {len(sites)}")
     from sa.inline import Inliner
@@ -390,8 +466,15 @@ def _pad_block_takes_extents_from_its_partner(ctx: Ctx):
             if i == k.value or i not in grows or ndefs < 2:
                 continue
             n_sites += 1
+            from sa.inline import Inliner as _InlPB
+            ex_ = _InlPB(f.node, rd, keep={a.id}).expand(e)  # (a named extent `S = y_next.size(0)` read at the same point)
+            if isinstance(ex_, ast.Name):
+                ds_ = [d for d in rd.defs_of(e)] if isinstance(e, ast.Name) else []
+                if len(ds_) == 1 and ds_[0].kind == "unpack" and isinstance(ds_[0].value, ast.Tuple) and ds_[0].slot and len(ds_[0].slot) == 1 \
+                        and ds_[0].slot[0] < len(ds_[0].value.elts):
+                    ex_ = ds_[0].value.elts[ds_[0].slot[0]]  # `S, N = y_next.size(0), y_next.size(1)`
             from_partner = any(isinstance(x, ast.Call) and isinstance(x.func, ast.Attribute) and x.func.attr == "size" and u(x.func.value) == a.id
-                               for x in ast.walk(e)) or any(isinstance(x, ast.Attribute) and x.attr == "shape" and u(x.value) == a.id for x in ast.walk(e))
+                               for x in ast.walk(ex_)) or any(isinstance(x, ast.Attribute) and x.attr == "shape" and u(x.value) == a.id for x in ast.walk(ex_))
             col.ob("G19", "S6", f"{rel}::beam_search_advance::pad-block-extent[{i}]-read-from-{a.id}", from_partner,
                    f"`{u(c)[:100]}` pads `{a.id}` along axis {k.value} with a block whose extent along axis {i} is `{u(e)}`, but "
                    f"`{a.id}` is only sometimes grown along axis {i} (one of its definitions concatenates along it, another does "
